@@ -1,6 +1,6 @@
 (* Uniform executable entry point of the model for the correspondence check:
    run_case tag args = the observable outputs the implementation must produce for the same case. *)
-From DDSV Require Import base.Machine model.View model.Layout model.DecoderSM model.EncoderSM model.Split model.DecodeScript model.Formats gen.GenFormats spec.SpecLayout model.HeaderTypes gen.GenHeader model.Header.
+From DDSV Require Import base.Machine model.View model.Layout model.DecoderSM model.EncoderSM model.Split model.DecodeScript model.Formats gen.GenFormats spec.SpecLayout model.HeaderTypes gen.GenHeader model.Header model.Numeric model.BCdec model.BC7.
 
 Local Open Scope Z_scope.
 
@@ -303,6 +303,29 @@ Definition run_c17 (a : list Z) : list Z :=
   | _ => [-99]
   end.
 
+Fixpoint zlist_eqb (a b : list Z) : bool :=
+  match a, b with
+  | [], [] => true
+  | x :: a', y :: b' => (x =? y) && zlist_eqb a' b'
+  | _, _ => false
+  end.
+(* ---- C03 BC1-5 blocks: [kind; rgb_only; wide; bytes...] -> 16 pixels, channel by channel *)
+Definition bcfmt_of (k : Z) : bcfmt :=
+  if k =? 0 then FBC1 else if k =? 1 then FBC2 else if k =? 2 then FBC2P else if k =? 3 then FBC3 else if k =? 4 then FBC3P
+  else if k =? 5 then FRXGB else if k =? 6 then FBC4U else if k =? 7 then FBC4S else if k =? 8 then FBC5U else FBC5S.
+Definition run_c03 (a : list Z) : list Z :=
+  match a with
+  | k :: rgb :: wide :: bytes =>
+      if k =? 10 then
+        (* BC7: the implementation-shaped model and the specification-shaped one must agree on the block as well *)
+        let m := bc7_model (map zn bytes) in
+        if zlist_eqb (map nz (concat m)) (map nz (concat (bc7_spec (map zn bytes))))
+        then map nz (concat (widen (negb (wide =? 0)) (if rgb =? 0 then m else map (firstn 3) m)))
+        else [-7]
+      else map nz (concat (bc_decode (bcfmt_of k) (negb (rgb =? 0)) (negb (wide =? 0)) (map zn bytes)))
+  | _ => [-99]
+  end.
+
 Definition run_case (tag : Z) (args : list Z) : list Z :=
   match tag with
   | 20 => run_c20 args
@@ -315,14 +338,9 @@ Definition run_case (tag : Z) (args : list Z) : list Z :=
   | 9 => run_c09 args
   | 19 => run_c19 args
   | 17 => run_c17 args
+  | 3 => run_c03 args
   | _ => [-98]
   end.
 
-Fixpoint zlist_eqb (a b : list Z) : bool :=
-  match a, b with
-  | [], [] => true
-  | x :: a', y :: b' => (x =? y) && zlist_eqb a' b'
-  | _, _ => false
-  end.
 Definition check_case (c : Z * list Z * list Z) : bool :=
   let '(t, a, r) := c in zlist_eqb (run_case t a) r.
